@@ -88,11 +88,14 @@ func (w *World) popCert(variant string, key crypto.Signer) *ssh.Certificate {
 	now := uint64(time.Now().Unix())
 	cert := &ssh.Certificate{Key: must(ssh.NewPublicKey(key.Public())), Serial: uint64(time.Now().UnixNano() & 0xffffffffff), CertType: ssh.HostCert,
 		KeyId: "host.example.com", ValidPrincipals: []string{"host.example.com"}, ValidAfter: now - 300, ValidBefore: now + 3600}
-	var signer crypto.Signer = w.ca.SSHHost
+	signer := w.sshHost
 	switch variant {
 	case "user":
 		cert.CertType = ssh.UserCert
-		signer = w.ca.SSHUser
+		signer = w.sshUser
+	case "userforeign": // a user certificate signed by a key the CA never had
+		cert.CertType = ssh.UserCert
+		signer = must(ecdsa.GenerateKey(elliptic.P256(), rand.Reader))
 	case "usersignedbyhost":
 		cert.CertType = ssh.UserCert
 	case "expired":
@@ -108,7 +111,7 @@ func (w *World) popCert(variant string, key crypto.Signer) *ssh.Certificate {
 	case "selfsigned":
 		signer = must(ecdsa.GenerateKey(elliptic.P256(), rand.Reader))
 	}
-	if signer == nil { // world without SSH CA
+	if signer == nil { // no CA key of that type in this world: a foreign key signs
 		signer = must(ecdsa.GenerateKey(elliptic.P256(), rand.Reader))
 	}
 	if err := cert.SignCert(rand.Reader, must(ssh.NewSignerFromSigner(signer))); err != nil {
@@ -492,7 +495,7 @@ func genMut(r *c.Rng, w *World, p *Prov, k *Case) Mut {
 			return Mut{K: "neb", S: c.Pick(r, []string{"otherca", "expired", "future", "ca-as-leaf", "curve25519"})}
 		}
 		if p.Ty == "sshpop" {
-			return Mut{K: "pop", S: c.Pick(r, []string{"user", "usersignedbyhost", "expired", "future", "forever", "hugeafter", "edge", "selfsigned"})}
+			return Mut{K: "pop", S: c.Pick(r, []string{"user", "userforeign", "usersignedbyhost", "expired", "future", "forever", "hugeafter", "edge", "selfsigned"})}
 		}
 		return Mut{K: "claim", S: c.Pick(r, []string{"exp", "nbf", "iat", "jti", "nonce", "email"}), I: 1}
 	case 19:
@@ -587,7 +590,7 @@ func corner(worlds []*World) []*Case {
 				out = append(out, &Case{W: wi, M: "nebula", TokOp: op, Op: op, Muts: []Mut{{K: "neb", S: v}}})
 			}
 		}
-		for _, v := range []string{"forever", "hugeafter", "expired", "future", "user", "selfsigned", "edge"} {
+		for _, v := range []string{"forever", "hugeafter", "expired", "future", "user", "userforeign", "usersignedbyhost", "selfsigned", "edge"} {
 			for _, op := range []string{"sshrenew", "sshrekey", "sshrevoke"} {
 				out = append(out, &Case{W: wi, M: "sshpop", TokOp: op, Op: op, Muts: []Mut{{K: "pop", S: v}}})
 				out = append(out, &Case{W: wi, M: "pop-norenew", TokOp: op, Op: op, Muts: []Mut{{K: "pop", S: v}}})
